@@ -38,3 +38,13 @@ Proof.
       congruence.
 Qed.
 Print Assumptions C03_keys.
+
+(* a reader with EXACT integer arithmetic (no reduction mod 2^32: a running value outside [0, 2^32) is an error for it)
+   accepts the written `mappings` and reads the map's tokens too: every delta the writer emits is the exact difference *)
+From SM Require Import Proofs.StrictProofs.
+Theorem C03_strict : forall nsrc nn, nsrc <= NONE -> nn <= NONE -> forall ts,
+  Forall (wf_tok nsrc nn) ts -> lines_ok 0 ts -> Forall (fun t => t_range t = false) ts ->
+  exists toks, strict_decode_mappings nsrc nn (serialize_mappings nn ts) = Ok toks
+               /\ map (norm nn) toks = map (norm nn) (dedup nn None ts).
+Proof. exact StrictProofs.strict_reads_serialized. Qed.
+Print Assumptions C03_strict.
